@@ -19,8 +19,11 @@ Fixpoint vis (ls : list label) : list vevent :=
   | [] => []
   | l :: ls' => match vis_of l with Some v => v :: vis ls' | None => vis ls' end
   end.
-Definition untime (e : event) : vevent :=
-  match e with EStart i _ => VStart i | EEnd i ok _ => VEnd i ok end.
+(* the visible projection is about COMMANDS (entries and exits of Run): an attempt that ended because its command could
+   not be created is an event of the harness (the Creator was called) but contributes nothing to it *)
+Definition untime1 (e : event) : list vevent :=
+  match e with EStart i _ => [VStart i] | EEnd i ok _ => [VEnd i ok] | ECreateFail _ _ => [] end.
+Definition untime (tr : list event) : list vevent := flat_map untime1 tr.
 
 Lemma vis_app a b : vis (a ++ b) = vis a ++ vis b.
 Proof. induction a as [|l a IH]; simpl; [reflexivity|]. destruct (vis_of l); simpl; rewrite IH; reflexivity. Qed.
@@ -138,9 +141,9 @@ Proof.
   destruct (IH _ G) as [G' V']. split; [exact G'|]. rewrite V'. exact V.
 Qed.
 
-Lemma feed_good r e r' : good r -> feed c ivl eps fin r e = Some r' -> good r' /\ visl r' = visl r ++ [untime e].
+Lemma feed_good r e r' : good r -> feed c ivl eps fin r e = Some r' -> good r' /\ visl r' = visl r ++ untime1 e.
 Proof.
-  intros Hg Hf. destruct e as [i t|i ok t]; cbn [feed] in Hf.
+  intros Hg Hf. destruct e as [i t|i ok t|i t]; cbn [feed] in Hf.
   - destruct (norm_keeps (2 * nsteps c + 2) t r Hg) as [G0 V0].
     destruct (app c _ (LCommit i)) as [r1|] eqn:H1; [|discriminate].
     destruct (app c r1 (LLaunch i)) as [r2|] eqn:H2; [|discriminate].
@@ -151,10 +154,19 @@ Proof.
   - destruct (app c r (WExecEnd i ok)) as [r1|] eqn:H1; [|discriminate].
     destruct (app_good _ _ _ Hg H1) as [G1 V1]. injection Hf as <-.
     unfold good, visl in *. cbn [lbl ms]. split; auto.
+  - destruct (norm_keeps (2 * nsteps c + 2) t r Hg) as [G0 V0].
+    destruct (app c _ (LCommit i)) as [r1|] eqn:H1; [|discriminate].
+    destruct (app c r1 (LLaunch i)) as [r2|] eqn:H2; [|discriminate].
+    destruct (app c r2 (WTest i)) as [r3|] eqn:H3; [|discriminate].
+    destruct (app c r3 (WCreateFail i)) as [r4|] eqn:H4; [|discriminate].
+    destruct (app_good _ _ _ G0 H1) as [G1 V1]. destruct (app_good _ _ _ G1 H2) as [G2 V2].
+    destruct (app_good _ _ _ G2 H3) as [G3 V3]. destruct (app_good _ _ _ G3 H4) as [G4 V4].
+    injection Hf as <-. unfold good, visl in *. cbn [lbl ms]. split; [exact G4|].
+    rewrite V4, V3, V2, V1, V0. simpl. rewrite !app_nil_r. reflexivity.
 Qed.
 
 Lemma feed_all_good es : forall r idx r', good r -> feed_all c ivl eps fin r es idx = (r', None) ->
-  good r' /\ visl r' = visl r ++ map untime es.
+  good r' /\ visl r' = visl r ++ untime es.
 Proof.
   induction es as [|e es IH]; simpl; intros r idx r' Hg H.
   - injection H as <-. split; auto. rewrite app_nil_r. reflexivity.
@@ -169,7 +181,7 @@ Proof. reflexivity. Qed.
 (* accept = true -> there is an execution of the model with that visible projection, ending in Done, whose final node
    table, Schedule error and Status are the observed ones *)
 Theorem accept_sound tr err status : accept c ivl eps fin tr err status = true ->
-  exists ls s, run c (init c) ls = Some s /\ vis ls = map untime tr /\ pc s = LDone /\
+  exists ls s, run c (init c) ls = Some s /\ vis ls = untime tr /\ pc s = LDone /\
                final_ok c fin s = true /\ lasterr s = err /\ ocode (overall c s) = status.
 Proof.
   unfold accept, replay. intros H.
